@@ -293,6 +293,12 @@ def run_const(case, ctx, tv, rng):
         I_arg = as_arg(I_zero, how)
         if how == 'ndarray':
             I_arg = np.array(I_zero, dtype=int).reshape(len(I_zero), d)
+        elif len(I_zero) and rng.random() < 0.2:
+            # the index table as a one-shot iterable (zip(*np.nonzero(mask)),
+            # a generator): what the unmodified routine iterates over once
+            I_arg = [iter(I_arg), (tuple(r_) for r_ in I_zero),
+                zip(*[list(c_) for c_ in zip(*I_zero)])][int(rng.integers(3))]
+            ctx.event('const-zero-list-one-shot-iterable')
         inz_arg = None if i_nz is None else as_arg(i_nz, how)
         desc += f', I_zero={I_zero}, i_non_zero={i_nz}'
         try:
@@ -781,6 +787,18 @@ def run_rand(case, ctx, tv, rng, normal):
         hi = max(float(G.max()) for G in Y)
         ctx.check('rand-range', p1 <= lo and hi <= p2, f'{desc}: core entries '
             f'span [{lo}, {hi}], requested [{p1}, {p2}]')
+    if seedmode in ('int', 'generator', 'none') and (p1 != p2 or normal):
+        # the entries are independent draws: two cores (or two halves of one
+        # core) are never identical, whatever the seed was
+        flat_ = [np.asarray(G).reshape(-1) for G in Y if G.size >= 4]
+        rep = any(a_.size == b_.size and np.array_equal(a_, b_)
+            for i_, a_ in enumerate(flat_) for b_ in flat_[i_ + 1:])
+        pre = any(np.array_equal(a_[:min(a_.size, b_.size)],
+            b_[:min(a_.size, b_.size)]) for i_, a_ in enumerate(flat_)
+            for b_ in flat_[i_ + 1:])
+        ctx.check('rand-independent-cores', not rep and not pre, f'{desc}: two '
+            'cores hold the same sequence of values (every core drawn from a '
+            're-started stream?)')
     if seedmode != 'audit':
         return
     calls = g.calls
